@@ -1,8 +1,9 @@
-\* intended code shape, quick tier: all sessions of <= 3 productions; exports them
+\* intended code shape, quick tier: all sessions of <= 2 productions per text; exports them
 SPECIFICATION Spec
 CONSTANTS
-  MaxProd = 3
+  MaxProd = 2
   MaxDepth = 6
+  OnlyKinds = {"qualDecl", "class", "instance", "include", "namespace", "garbage"}
   IncludeGuard = TRUE
   NsNoneCheck = TRUE
   HexBounds = TRUE
